@@ -6,6 +6,8 @@ package pubsub
 // directions (delivered and forwarded unchanged / never delivered, never queued for anybody).
 
 import (
+	"context"
+	"sync"
 	"fmt"
 	"testing"
 
@@ -21,18 +23,23 @@ type c03Msg struct {
 	Topic   int   `json:"topic"`
 	Tampers []int `json:"tampers,omitempty"`
 	Local   int   `json:"local,omitempty"` // >0: a local publish instead (1 default key, 2 per-publish ed25519 key, 3 per-publish ecdsa key)
+	Over    bool  `json:"over,omitempty"`  // the message arrives while the validation pipeline is full (overload cases only)
 }
 
 type c03Case struct {
 	Policy int      `json:"policy"` // 0 StrictSign 1 StrictNoSign 2 LaxSign 3 LaxNoSign
 	Author int      `json:"author_mode"` // 0 default, 1 custom author (another identity whose key is in the peerstore), 2 no author
 	Msgs   []c03Msg `json:"msgs"`
+	// Overload: validation queue of one, one worker and a validator the harness can hold, so that a message can be made
+	// to arrive while the pipeline is full (such a message is dropped; it must never be let through unverified)
+	Overload bool `json:"overload,omitempty"`
 }
 
 const c03NTampers = 20
 
 func c03Gen(rt *rapid.T) c03Case {
 	c := c03Case{Policy: rapid.IntRange(0, 3).Draw(rt, "policy"), Author: rapid.SampledFrom([]int{0, 0, 0, 1, 2}).Draw(rt, "authorMode")}
+	c.Overload = rapid.IntRange(0, 4).Draw(rt, "overload") == 0
 	n := rapid.IntRange(1, 12).Draw(rt, "nmsgs")
 	for i := 0; i < n; i++ {
 		m := c03Msg{Author: rapid.IntRange(0, 2).Draw(rt, "author"), Sender: rapid.IntRange(1, 3).Draw(rt, "sender"), Topic: rapid.IntRange(0, 1).Draw(rt, "topic")}
@@ -42,6 +49,9 @@ func c03Gen(rt *rapid.T) c03Case {
 			for k := 0; k < rapid.SampledFrom([]int{0, 1, 1, 1, 2, 3}).Draw(rt, "ntampers"); k++ {
 				m.Tampers = append(m.Tampers, rapid.IntRange(0, c03NTampers-1).Draw(rt, "tamper"))
 			}
+		}
+		if c.Overload && m.Local == 0 {
+			m.Over = rapid.Bool().Draw(rt, "over")
 		}
 		c.Msgs = append(c.Msgs, m)
 	}
@@ -101,6 +111,25 @@ func c03RunInBubble(t *testing.T, c c03Case, res *vfResult) {
 	policy := c03Policies[c.Policy]
 	custom := vfPeer(38)
 	opts := []Option{WithMessageSignaturePolicy(policy)}
+	var holdMu sync.Mutex
+	var hold chan struct{}
+	workers := 0
+	if c.Overload {
+		workers = 1
+		opts = append(opts, WithValidateQueueSize(1), WithDefaultValidator(func(ctx context.Context, p peer.ID, m *Message) bool {
+			holdMu.Lock()
+			h := hold
+			holdMu.Unlock()
+			if h != nil {
+				select {
+				case <-h:
+				case <-ctx.Done():
+				}
+			}
+			return true
+		}, WithValidatorInline(true))) // inline: the validation worker itself waits, so the queue behind it fills up
+		res.label("overload-configuration")
+	}
 	idOf := DefaultMsgIdFn
 	switch c.Author {
 	case 1:
@@ -113,7 +142,7 @@ func c03RunInBubble(t *testing.T, c c03Case, res *vfResult) {
 	n := &vfNode{}
 	{
 		// the custom author's key has to be in the peerstore before the constructor looks for it
-		nn, err := newVfNodeWith(t, vfNodeCfg{Router: "floodsub", Opts: opts}, func(h *vfHost) {
+		nn, err := newVfNodeWith(t, vfNodeCfg{Router: "floodsub", Opts: opts, Workers: workers}, func(h *vfHost) {
 			_ = h.pstore.AddPrivKey(custom.ID, custom.Priv)
 			_ = h.pstore.AddPubKey(custom.ID, custom.Pub)
 		})
@@ -148,6 +177,7 @@ func c03RunInBubble(t *testing.T, c c03Case, res *vfResult) {
 	seenIDs := map[string]bool{}
 	var history []*pb.Message // honest messages built so far (sources for recombination)
 	seq := uint64(100)
+	fillSeq := uint64(0)
 	nontrivial := false
 	_, ec := vfIdents()
 
@@ -290,8 +320,38 @@ func c03RunInBubble(t *testing.T, c c03Case, res *vfResult) {
 		id := idOf(&x)
 		dup := seenIDs[id]
 		before := vfMustMarshal(&x)
-		n.recv(m.Sender, vfMsgRPC(&x))
-		n.settle()
+		overloaded := false
+		if c.Overload && m.Over {
+			// fill the pipeline: the worker is held inside the validator with one filler, a second filler occupies the queue
+			h := make(chan struct{})
+			holdMu.Lock()
+			hold = h
+			holdMu.Unlock()
+			for k := 0; k < 2; k++ {
+				fillSeq++
+				f := vfSignedMsg(vfPeer(9), topics[0], 1<<50+fillSeq, []byte(fmt.Sprintf("filler-%d", fillSeq)))
+				if effective&msgSigning == 0 && effective&msgVerification != 0 {
+					f.Signature, f.Key = nil, nil
+					if anonymous {
+						f.From, f.Seqno = nil, nil
+					}
+				}
+				n.recv(4, vfMsgRPC(f))
+				n.settle()
+			}
+			overloaded = true
+			res.label("arrives-while-pipeline-full")
+			n.recv(m.Sender, vfMsgRPC(&x))
+			n.settle()
+			holdMu.Lock()
+			hold = nil
+			holdMu.Unlock()
+			close(h)
+			n.settle()
+		} else {
+			n.recv(m.Sender, vfMsgRPC(&x))
+			n.settle()
+		}
 		sent := n.drain()
 		delivered := 0
 		for len(subs[0].ch)+len(subs[1].ch) > 0 {
@@ -325,6 +385,11 @@ func c03RunInBubble(t *testing.T, c c03Case, res *vfResult) {
 		case dup:
 			if delivered > 0 || forwarded > 0 {
 				res.violate("C03/duplicate-delivered", mi, "%s: same message ID as an earlier message, delivered=%d forwarded=%d", desc, delivered, forwarded)
+			}
+		case overloaded:
+			// an authentic message that met a full pipeline may be dropped (and may come again later)
+			if delivered > 0 {
+				seenIDs[id] = true
 			}
 		default:
 			seenIDs[id] = true
